@@ -180,35 +180,41 @@ fn purity_across_hashes(rng: &mut Rng) {
     let mut s2 = s1.clone();
     s2[31] ^= 1; // shares all but one bit with s1
     let s3 = rng.bytes(32);
-    let mut calls: Vec<(&'static str, Vec<u8>)> = Vec::new();
+    // ... and the same seed with other parameter lists (another Winternitz parameter on top, another
+    // height): a memo keyed by less than (hash, parameters, seed, position) shows up here
+    let lists: Vec<Vec<(u32, u32)>> = vec![levels.clone(), vec![(2u32, 1u32), (4u32, 1u32)], vec![(4u32, 1u32), (3u32, 1u32)], vec![(3u32, 5u32)]];
+    let mut calls: Vec<(&'static str, Vec<u8>, Vec<(u32, u32)>)> = Vec::new();
     for h in hashes.iter() {
         for sd in [&s1, &s2, &s3] {
-            calls.push((h, sd.clone()));
+            for (li, lv) in lists.iter().enumerate() {
+                if li == 0 || (*h == "sha256_256" || *h == "shake256_128") && sd == &s1 {
+                    calls.push((h, sd.clone(), lv.clone()));
+                }
+            }
         }
     }
-    let run_one = |h: &'static str, sd: &Vec<u8>| -> (Out<(Vec<u8>, Vec<u8>)>, Out<Vec<u8>>) {
-        let k = keygen(h, &levels, sd);
+    let run_one = |h: &'static str, sd: &Vec<u8>, levels: &Vec<(u32, u32)>| -> (Out<(Vec<u8>, Vec<u8>)>, Out<Vec<u8>>) {
+        let k = keygen(h, levels, sd);
         let s = match &k {
             Out::Ok((sk, _)) => sign(h, sk, b"purity", true, None).0,
             _ => Out::Err,
         };
         (k, s)
     };
-    let first: Vec<_> = calls.iter().map(|(h, sd)| run_one(h, sd)).collect();
+    let first: Vec<_> = calls.iter().map(|(h, sd, lv)| run_one(h, sd, lv)).collect();
     // reversed order
     let mut ok_rev = true;
-    for (i, (h, sd)) in calls.iter().enumerate().rev() {
-        ok_rev &= run_one(h, sd) == first[i];
+    for (i, (h, sd, lv)) in calls.iter().enumerate().rev() {
+        ok_rev &= run_one(h, sd, lv) == first[i];
     }
     // seed-major order, from another thread
     let calls2 = calls.clone();
-    let levels2 = levels.clone();
     let third = std::thread::spawn(move || {
         let mut order: Vec<usize> = (0..calls2.len()).collect();
         order.sort_by_key(|i| (i % 3, *i));
         order.into_iter().map(|i| {
-            let (h, sd) = &calls2[i];
-            let k = keygen(h, &levels2, sd);
+            let (h, sd, levels2) = &calls2[i];
+            let k = keygen(h, levels2, sd);
             let s = match &k {
                 Out::Ok((sk, _)) => sign(h, sk, b"purity", true, None).0,
                 _ => Out::Err,
@@ -217,6 +223,33 @@ fn purity_across_hashes(rng: &mut Rng) {
         }).collect::<Vec<_>>()
     }).join().unwrap_or_default();
     let ok_thread = third.len() == calls.len() && third.iter().all(|(i, r)| *r == first[*i]);
+    // the in-memory key object has no memory: after signing with one state, the same object loaded
+    // (as_mut_slice) with an earlier state, with a later state or with another key behaves exactly
+    // like a fresh object made from those bytes and like the byte-level function
+    {
+        let h = "sha256_128";
+        let lv = vec![(3u32, 1u32), (3u32, 1u32)];
+        let shape2 = Shape { hash: h, levels: lv.clone() };
+        if let (Out::Ok((ka, _)), Out::Ok((kb, _))) = (keygen(h, &lv, &s1), keygen(h, &lv, &s3)) {
+            let mut ok = true;
+            let mut detail = String::new();
+            for (first, second) in [(set_counter(&ka, 5), set_counter(&ka, 2)), (set_counter(&ka, 2), set_counter(&ka, 9)),
+                                    (set_counter(&ka, 7), set_counter(&kb, 3)), (set_counter(&ka, 15), set_counter(&ka, 0))] {
+                let reused = try_sign_reused(h, &first, b"one", &second, b"two");
+                let fresh = try_sign(h, &second, b"two");
+                let (bsig, bcalls) = sign(h, &second, b"two", true, None);
+                let byte_level_same = match (&fresh.0, &bsig) {
+                    (Out::Ok(a), Out::Ok(b)) => a == b && bcalls.len() == 1 && fresh.1 == Out::Ok(bcalls[0].0.clone()),
+                    (a, b) => a.class() == b.class(),
+                };
+                if reused != fresh || !byte_level_same {
+                    ok = false;
+                    detail = format!("first={} second={}", hex(&first[..8]), hex(&second[..8]));
+                }
+            }
+            oracle("key_object_has_no_memory", ok, "a reused SigningKey object signed differently from a fresh one made of the same bytes", &shape2, 0, &detail);
+        }
+    }
     let shape = Shape { hash: "sha256_256", levels };
     oracle("pure_across_hashes_and_orders", ok_rev && ok_thread && first.iter().all(|(k, _)| matches!(k, Out::Ok(_))),
            "the same (hash, parameters, seed) gave different keys or signatures after other calls", &shape, 0,
